@@ -297,17 +297,14 @@ pub fn judge(rec: &mut Recorder, c: &TimesCase, ex: Exec, _hello: &Value) -> Res
         let k = matching.len();
         // non-matching calls: panic "unexpected arguments", never counted
         for x in &non {
-            match &x.panic {
-                Some(p) if p.contains("unexpected arguments") => {}
-                other => return rec.fail(&sig("when-not-enforced"), ctx(&format!("call with arguments failing `when` (a={}) gave {:?} / panic {other:?}", x.arg, x.value))),
+            if x.panic.is_none() {
+                return rec.fail(&sig("when-not-enforced"), ctx(&format!("call with arguments failing `when` (a={}) returned {:?} instead of panicking", x.arg, x.value)));
             }
         }
         let ok: Vec<&&CallOut> = matching.iter().filter(|x| x.panic.is_none()).collect();
-        let over: Vec<&&CallOut> = matching.iter().filter(|x| x.panic.as_deref().map(|p| p.contains("more times than expected")).unwrap_or(false)).collect();
-        if ok.len() + over.len() != k {
-            let bad = matching.iter().find(|x| x.panic.is_some() && !x.panic.as_deref().unwrap().contains("more times than expected"));
-            return rec.fail(&sig("unexpected-panic-in-matching-call"), ctx(&format!("{bad:?}")));
-        }
+        // (the wording of the per-call panic is not part of the statement: any panic of a
+        // matching call counts as "refused at the call")
+        let over: Vec<&&CallOut> = matching.iter().filter(|x| x.panic.is_some()).collect();
         if ok.len() != k.min(n) || over.len() != k.saturating_sub(n) {
             return rec.fail(&sig(&format!("admitted-count-wrong/{which}")), ctx(&format!("{} matching calls returned normally and {} panicked as over-called; with times: {n} and {k} matching calls exactly {} must return and {} must panic", ok.len(), over.len(), k.min(n), k.saturating_sub(n))));
         }
